@@ -174,9 +174,16 @@ def run(ck):
     gl = gl[0]
     grp_items = u(gl.target.elts[1]) if isinstance(gl.target, ast.Tuple) else '?'
     inner = [n for n in gl.body if isinstance(n, ast.For) and u(n.iter) == grp_items]
+    if not inner:
+        # the group's items reached through a local that is an element-wise view of them (`(item[1] for item in group)`)
+        for n in gl.body:
+            if isinstance(n, ast.For) and isinstance(n.iter, ast.Name):
+                d_ = single_def(w, n.iter.id)
+                if isinstance(d_, (ast.GeneratorExp, ast.ListComp)) and len(d_.generators) == 1 and u(d_.generators[0].iter) == grp_items and not d_.generators[0].ifs:
+                    inner.append(n)
     ck.need(len(inner) == 1, 'ITP writer: loop over the interactions of a group not found')
     inl = inner[0]
-    ck.ob('MPT-all-interactions', mod.loc(inl), u(inl.iter) == grp_items and unconditional_in(w, gl.body, inl) and unconditional_in(w, il.body, gl),
+    ck.ob('MPT-all-interactions', mod.loc(inl), unconditional_in(w, gl.body, inl) and unconditional_in(w, il.body, gl),
           'every group and every interaction of a group is visited unconditionally', key='MPT-all-interactions|visit')
     lw = [s for s in inl.body if isinstance(s, ast.Expr) and call_attr(s.value) == 'write']
     ck.ob('MPT-all-interactions', mod.loc(inl), len(lw) == 1 and unconditional_in(w, inl.body, lw[0]) and
